@@ -25,6 +25,8 @@ const (
 	KChMsg   Kind = 'M' // channel new message: channel pts, count 1
 	KChOther Kind = 'O' // channel pts-bearing non-message update (delete), count ≥ 1
 	KPlain   Kind = 'p' // update without a position
+	KAff     Kind = 'a' // a messages.affected* result moving the common pts (never pushed as an update; reaches the client only through Manager.HandleAffected; not dispatchable)
+	KChAff   Kind = 'A' // the same for a channel's pts
 )
 
 // Entry is one update of the server's log.
@@ -39,14 +41,21 @@ type Entry struct {
 // Seq names the sequence an entry belongs to: "pts", "qts", "c<id>" or "" (plain).
 func (e Entry) Seq() string {
 	switch e.Kind {
-	case KMsg, KOther:
+	case KMsg, KOther, KAff:
 		return "pts"
 	case KQts, KQOther:
 		return "qts"
-	case KChMsg, KChOther:
+	case KChMsg, KChOther, KChAff:
 		return "c" + strconv.FormatInt(e.Chan, 10)
 	}
 	return ""
+}
+
+// IsMarker: an affected result — it occupies positions of its sequence but is nothing to dispatch.
+func (e Entry) IsMarker() bool { return e.Kind == KAff || e.Kind == KChAff }
+
+func (e Entry) inChan(c int64) bool {
+	return (e.Kind == KChMsg || e.Kind == KChOther || e.Kind == KChAff) && e.Chan == c
 }
 
 func (e Entry) String() string {
@@ -215,7 +224,7 @@ func (w *World) serverState() (pts, qts int) {
 func (w *World) chanState(c int64) int {
 	p := w.C0[c]
 	for _, e := range w.emitted() {
-		if (e.Kind == KChMsg || e.Kind == KChOther) && e.Chan == c {
+		if e.inChan(c) {
 			p = e.Pos
 		}
 	}
@@ -260,6 +269,8 @@ func (w *World) commonDifference(pts, qts int) tg.UpdatesDifferenceClass {
 		case KQts:
 			enc = append(enc, &tg.EncryptedMessage{RandomID: int64(e.ID), ChatID: 1})
 			sv.Messages = append(sv.Messages, e.ID)
+		case KAff:
+			// the client's own action: covered by the state, nothing to carry
 		default:
 			others = append(others, e.Update())
 			sv.Others = append(sv.Others, e.ID)
@@ -300,7 +311,7 @@ func (w *World) channelDifference(c int64, pts int) tg.UpdatesChannelDifferenceC
 	var part []Entry
 	more := false
 	for _, e := range w.emitted() {
-		if (e.Kind == KChMsg || e.Kind == KChOther) && e.Chan == c && e.Pos > pts {
+		if e.inChan(c) && e.Pos > pts {
 			if w.ChanSlice > 0 && len(part) == w.ChanSlice {
 				more = true
 				break
@@ -315,10 +326,11 @@ func (w *World) channelDifference(c int64, pts int) tg.UpdatesChannelDifferenceC
 	sv := Served{Seq: seq, Kind: "diff"}
 	d := &tg.UpdatesChannelDifference{Final: !more, Pts: pts}
 	for _, e := range part {
-		if e.Kind == KChMsg {
+		switch e.Kind {
+		case KChMsg:
 			d.NewMessages = append(d.NewMessages, e.message())
 			sv.Messages = append(sv.Messages, e.ID)
-		} else {
+		case KChOther:
 			d.OtherUpdates = append(d.OtherUpdates, e.Update())
 			sv.Others = append(sv.Others, e.ID)
 		}
